@@ -1816,6 +1816,7 @@ func TestVerif_C16(t *testing.T) {
 	}
 	c16Part1(c, nb, wrapKnown, loopKnown)
 	c16Part2(c)
+	c16Part2b(c) // time ranges whose bounds are not aligned to the quantum (every day as `from`)
 	c16Part3(c)
 	c16Part4(c)
 	c.Assume("single node, executor worker pool of 1; rows 0..3(4), three shards; GroupBy `previous` only as the cursor taken from the last group of a page (as documented)")
